@@ -904,7 +904,14 @@ func lexHeaderParam(l *lexer) stateFn {
 func lexCss(l *lexer) stateFn {
 	l.next()
 	l.ignore()
-	for l.next() != '}' {
+	for {
+		var r = l.next()
+		if r == eof {
+			return l.errorf("unclosed tag")
+		}
+		if r == '}' {
+			break
+		}
 	}
 	l.backup()
 	l.emit(itemText)
